@@ -58,6 +58,10 @@ def make_case(rng, idx, tier):
     prefix = 'vwc%d' % idx
     nl = rng.randint(1, 3)
     layers = gen.random_layer_graph(rng, nmax=nl, nmin=nl, p_hook=0.85)
+    if rng.random() < 0.15:
+        # a layer on two roots and siblings on one of them: a failing root
+        # must not take the healthy sibling layers with it
+        layers = gen.mi_sibling_family(rng, p_hook=0.85)
     keys = [ls['name'] for ls in layers]
     if rng.random() < 0.3:
         keys = [None] + keys
